@@ -99,6 +99,16 @@ CLAIMED = {
          '[0,2S-1]); word/channels/samples guards and the frame clamp hold at every store; byte order follows the request; bytes '
          'returned = frames consumed x frame size; the channel count is the current link\'s. Rounding to nearest is not decided.',
          'Trusted: clang 14 front end; vorbis_ftoi returns an arbitrary int.', 'DESIGN.md 4/C17'),
+ 'C02': ('cross-function abstract interpretation (intervals + symbolic upper bounds + end-of-packet tags) of every function the decode API reaches, with field invariants carried from the header unpackers to their consumers; CFG guard rules; call-graph reachability',
+         'Every stream-derived set-up field is shown to be range-validated by its unpacker on every success path (the range each '
+         'consumer needs), and under those ranges every fixed-extent subscript, integer divisor, allocation and alloca size in the '
+         'decode call graph is shown in range / non-zero / bounded, or is a listed assumption with its reason; the listed semantic '
+         'guards (CVE shapes) are present; no process-terminating call is reachable; rejected headers are cleared. Heap-buffer DSP '
+         'arithmetic, loop termination and time budget are not decided.',
+         'Trusted: clang 14 front end; libogg bit-packer contract (sticky end-of-packet); calloc zero-fills; qsort permutes; the '
+         'K4 lemmas named in evidence (accumulator bound, named sums, iteration-partitioned pure helpers); objects passed to the '
+         'decode API were initialised by their init functions; 23 sites are assumptions with reasons (engine/rules/c02_tables.py).',
+         'DESIGN.md 4/C02, 3.3 K4'),
 }
 
 NA = {
